@@ -68,3 +68,175 @@ Definition R (old : list tree) (c c' : core) : Prop :=
   (c_mode c = MInt -> c_base c = c_base c') /\
   (c_mode c = MSharpNum -> c_sharp c = c_sharp c') /\
   (c_mode c = MRune -> c_rn c = c_rn c' /\ c_rcnt c = c_rcnt c').
+
+Lemma in_backquote_R old c c' : pR old (c_p c) (c_p c') -> in_backquote c = in_backquote c'.
+Proof. intros [Hs _]. unfold in_backquote. rewrite Hs. reflexivity. Qed.
+
+Ltac unR := unfold R, pR; cbn [c_mode c_next c_base c_sharp c_rn c_rcnt c_p c_err set_mode set_modes set_p set_err set_base set_sharp set_rune push_open push_mark class_of stack code].
+Ltac finR :=
+  unR; repeat match goal with |- _ /\ _ => split end;
+  try reflexivity; try assumption; try (intros; discriminate); try (intros [?|?]; discriminate);
+  try (f_equal; assumption); try tauto;
+  try (match goal with H : code _ = _ |- _ => rewrite H; reflexivity end).
+
+Lemma step_core_R esc old a b c c' c1 op :
+  R old c c' -> allowed2 (c_mode c) b a = true -> step_core esc a b c = (c1, op) ->
+  exists c1', step_core esc a b c' = (c1', op) /\ R old c1 c1'.
+Proof.
+  intros HR Hal Hstep. pose proof HR as (Hm & Hp & He & Hnx & Hba & Hsh & Hru).
+  apply andb_true_iff in Hal as [Hal1 Hal2].
+  pose proof Hp as [Hst Hco].
+  destruct c as [m n ba sh rn rc p e], c' as [m' n' ba' sh' rn' rc' p' e'].
+  cbn [c_mode c_next c_base c_sharp c_rn c_rcnt c_p c_err] in *. subst m' e'.
+  destruct a; cbn [step_core c_mode c_next c_base c_sharp c_rn c_rcnt c_p c_err] in Hstep |- *.
+  all: try (apply mode_eqb_eq in Hal2; subst m).
+  all: try (apply andb_true_iff in Hal2 as [Hal2 _]; try (apply andb_true_iff in Hal2 as [Hal2 _]); try (apply andb_true_iff in Hal2 as [Hal2 _]); apply mode_eqb_eq in Hal2; subst m).
+  all: try (apply orb_true_iff in Hal2 as [Hal2|Hal2]; apply mode_eqb_eq in Hal2; subst m).
+  all: try (destruct (Hnx ltac:(cbn; tauto)) as [Hn Hcls]; subst n').
+  all: try (destruct (Hru eq_refl) as [Hrn Hrc]; subst rn' rc').
+  all: try (pose proof (Hsh eq_refl) as Hsh'; subst sh').
+  all: try (pose proof (Hba eq_refl) as Hba'; subst ba').
+  all: cbn in Hstep |- *.
+  all: try (match type of Hstep with context [match ?v with N0 => _ | Npos _ => _ end] => destruct v as [|[q|q|]]; cbn in Hstep |- *; try (match type of Hstep with context [(1024 <? ?x)%N] => destruct (1024 <? x)%N end) end).
+  all: try (injection Hstep as <- <-; eexists; split; [reflexivity|]; finR;
+            try (intros Hx; rewrite Hx in *; discriminate)).
+  - (* AClose *)
+    pose proof (close_list_R old p p' Hp) as Hcl.
+    destruct (close_list p) as [q|er], (close_list p') as [q'|er']; try contradiction.
+    + injection Hstep as <- <-. eexists; split; [reflexivity|]. destruct Hcl. finR.
+    + subst er'. injection Hstep as <- <-. eexists; split; [reflexivity|]. finR.
+  - (* AEsc *) intros _. apply Hnx. destruct m; cbn in Hal1; try discriminate Hal1; cbn; tauto.
+  - destruct rc as [|[|rc]]; injection Hstep as <- <-; eexists; (split; [reflexivity|]); finR; try (intros Hx; rewrite Hx in *; discriminate).
+  - destruct rc as [|[|rc]]; injection Hstep as <- <-; eexists; (split; [reflexivity|]); finR; try (intros Hx; rewrite Hx in *; discriminate).
+  - destruct rc as [|[|rc]]; injection Hstep as <- <-; eexists; (split; [reflexivity|]); finR; try (intros Hx; rewrite Hx in *; discriminate).
+  - (* AComma *)
+    match goal with |- context [in_backquote ?c'] => match type of Hstep with context [in_backquote ?c] =>
+      rewrite <- (in_backquote_R old c c') by exact Hp; destruct (in_backquote c) end end;
+    injection Hstep as <- <-; eexists; (split; [reflexivity|]); finR.
+  - (* ACommaAt *)
+    rewrite <- Hst. destruct (stack p) as [|[k|[]|t] rest] eqn:Es; injection Hstep as <- <-; eexists; (split; [reflexivity|]); finR.
+    all: try (rewrite Es; exact Hst).
+    all: try (cbn; f_equal; injection Hst as ?; congruence).
+Qed.
+
+Lemma R_value old c c' p p' : c_err c = c_err c' -> pR old p p' -> R old (set_mode (set_p c p) MValue) (set_mode (set_p c' p') MValue).
+Proof. intros He Hp. unR. repeat split; try reflexivity; try apply Hp; try exact He; try (intros; discriminate); try (intros [?|?]; discriminate);
+  try (match goal with H : _ = _ \/ _ = _ |- _ => destruct H; discriminate end). Qed.
+Lemma R_err_value old c c' x : pR old (c_p c) (c_p c') -> R old (set_mode (set_err c x) MValue) (set_mode (set_err c' x) MValue).
+Proof. intros Hp. unR. repeat split; try reflexivity; try apply Hp; try (intros; discriminate); try (intros [?|?]; discriminate);
+  try (match goal with H : _ = _ \/ _ = _ |- _ => destruct H; discriminate end). Qed.
+
+Lemma emit_R old c c' k lex : R old c c' -> (k = XInt -> c_base c = c_base c') -> R old (emit c k lex) (emit c' k lex).
+Proof.
+  intros (Hm & Hp & He & _) Hb. unfold emit. destruct k.
+  - apply R_value; [exact He|apply push_token_R; exact Hp].
+  - apply R_value; [exact He|apply push_val_R; exact Hp].
+  - apply R_value; [exact He|apply push_val_R; exact Hp].
+  - destruct lex; [apply R_err_value; exact Hp|apply R_value; [exact He|apply push_val_R; exact Hp]].
+  - rewrite <- (Hb eq_refl). destruct (valid_int (c_base c) lex); [apply R_value; [exact He|apply push_val_R; exact Hp]|apply R_err_value; exact Hp].
+  - apply R_value; [exact He|apply push_val_R; exact Hp].
+Qed.
+
+(* what an action needs of the pending lexeme, by mode *)
+Lemma op_facts esc a b c c1 op : allowed2 (c_mode c) b a = true -> step_core esc a b c = (c1, op) ->
+  match op with
+  | LGrow | LAppend _ | LAppendIf _ => class_of (c_mode c) <> ClsNone
+  | LDone k _ => class_of (c_mode c) <> ClsNone /\ (k = XInt -> c_mode c1 = MInt) /\ c1 = c
+  | LNone | LFreeze => class_of (c_mode c1) <> ClsNone -> class_of (c_mode c) <> ClsNone
+  | LStartHere | LStartNext => True
+  end.
+Proof.
+  intros Hal Hstep. apply andb_true_iff in Hal as [Hal1 Hal2].
+  destruct c as [m n ba sh rn rc p e]. cbn [c_mode] in *.
+  destruct a; cbn [step_core c_mode c_next c_base c_sharp c_rn c_rcnt c_p c_err] in Hstep.
+  all: try (apply mode_eqb_eq in Hal2; subst m).
+  all: try (apply andb_true_iff in Hal2 as [Hal2 _]; try (apply andb_true_iff in Hal2 as [Hal2 _]); try (apply andb_true_iff in Hal2 as [Hal2 _]); apply mode_eqb_eq in Hal2; subst m).
+  all: try (apply orb_true_iff in Hal2 as [Hal2|Hal2]; apply mode_eqb_eq in Hal2; subst m).
+  all: cbn in Hstep.
+  all: repeat match type of Hstep with context [match ?x with _ => _ end] => destruct x eqn:? end.
+  all: try (injection Hstep as <- <-; cbn; try tauto; try (repeat split; try discriminate; try reflexivity; intros; discriminate)).
+  all: try (destruct m; cbn in *; try discriminate; injection Hstep as <- <-; cbn; try tauto; try discriminate; intros; try discriminate; try tauto).
+Qed.
+
+Definition Rs (old : list tree) (s s' : sstate) : Prop :=
+  R old (s_core s) (s_core s') /\ (class_of (c_mode (s_core s)) <> ClsNone -> s_pend s = s_pend s').
+
+Lemma table_ok2_allowed T m b : table_ok2 T = true -> (b < 256)%N -> allowed2 m b (act T m b) = true.
+Proof.
+  unfold table_ok2. rewrite forallb_forall. intros H Hb. specialize (H m (all_modes_complete m)).
+  rewrite forallb_forall in H. apply H. unfold all_bytes. apply in_map_iff. exists (N.to_nat b). split; [apply N2Nat.id|].
+  apply in_seq. lia.
+Qed.
+
+(* one application of an action *)
+Lemma apply_R esc old a b s s' c1 op s1 r :
+  Rs old s s' -> allowed2 (c_mode (s_core s)) b a = true ->
+  step_core esc a b (s_core s) = (c1, op) -> s_apply s b c1 op = (s1, r) ->
+  exists c1' s1', step_core esc a b (s_core s') = (c1', op) /\ s_apply s' b c1' op = (s1', r) /\ Rs old s1 s1'.
+Proof.
+  intros [HR Hpend] Hal Hstep Happ.
+  destruct (step_core_R esc old a b _ _ c1 op HR Hal Hstep) as (c1' & Hstep' & HR1).
+  pose proof (op_facts esc a b _ c1 op Hal Hstep) as Hop.
+  exists c1'. destruct op; cbn in Happ |- *; injection Happ as <- <-; eexists; (split; [exact Hstep'|]); (split; [reflexivity|]); split; cbn [s_core s_pend].
+  all: try exact HR1.
+  all: try (intros Hc; first [rewrite (Hpend (Hop Hc)); reflexivity | rewrite (Hpend Hop); reflexivity | reflexivity]).
+  - (* LDone *) destruct Hop as (Hc & Hint & ->). rewrite (Hpend Hc). apply emit_R; [exact HR1|].
+    intros ->. destruct HR1 as (_ & _ & _ & _ & Hba & _). apply Hba. apply Hint. reflexivity.
+Qed.
+
+Lemma allowed2_all T : table_ok T = true -> table_ok2 T = true -> forall m b, allowed2 m b (act T m b) = true.
+Proof.
+  intros H1 H2 m b. destruct (N.lt_ge_cases b 256) as [Hlt|Hge]; [apply table_ok2_allowed; assumption|].
+  unfold table_ok in H1. rewrite forallb_forall in H1. specialize (H1 m (all_modes_complete m)).
+  apply andb_true_iff in H1 as [Hlen _]. apply Nat.eqb_eq in Hlen.
+  unfold act. rewrite nth_overflow by lia. cbn. unfold allowed2. destruct (class_of m); reflexivity.
+Qed.
+
+Lemma step_R T esc old s s' b : table_ok T = true -> table_ok2 T = true -> Rs old s s' ->
+  Rs old (s_step T esc s b) (s_step T esc s' b).
+Proof.
+  intros H1 H2 HRs. pose proof HRs as [HR _]. pose proof HR as (Hm & _ & He & _).
+  unfold s_step. rewrite <- He, <- Hm. destruct (c_err (s_core s)) eqn:E; [exact HRs|].
+  destruct (step_core esc (act T (c_mode (s_core s)) b) b (s_core s)) as [c1 op1] eqn:E1.
+  destruct (s_apply s b c1 op1) as [s1 r] eqn:E2.
+  destruct (apply_R esc old _ b s s' c1 op1 s1 r HRs (allowed2_all T H1 H2 _ _) E1 E2) as (c1' & s1' & -> & -> & HRs1).
+  destruct r; [|exact HRs1].
+  pose proof HRs1 as [HR1 _]. pose proof HR1 as (Hm1 & _ & He1 & _). rewrite <- He1, <- Hm1.
+  destruct (c_err (s_core s1)) eqn:E3; [exact HRs1|].
+  destruct (step_core esc (act T (c_mode (s_core s1)) b) b (s_core s1)) as [c2 op2] eqn:E4.
+  destruct (s_apply s1 b c2 op2) as [s2 r2] eqn:E5.
+  destruct (apply_R esc old _ b s1 s1' c2 op2 s2 r2 HRs1 (allowed2_all T H1 H2 _ _) E4 E5) as (c2' & s2' & -> & -> & HRs2).
+  exact HRs2.
+Qed.
+
+Lemma run_R T esc old : table_ok T = true -> table_ok2 T = true -> forall text s s', Rs old s s' ->
+  Rs old (s_run T esc s text) (s_run T esc s' text).
+Proof.
+  intros H1 H2. induction text as [|b text IH]; intros s s' HRs; [exact HRs|].
+  unfold s_run in *. cbn [fold_left]. apply IH. apply step_R; assumption.
+Qed.
+
+(* related states finish alike: the continuing reader has the earlier objects in front *)
+Definition prepend (objs : list tree) (p : nat) (r : result) : result :=
+  match r with ROk o q => ROk (objs ++ o) (p + q) | RErr e o => RErr e (objs ++ o) end.
+
+Lemma depth_R old p p' : pR old p p' -> depth_of p = depth_of p'.
+Proof. intros [Hs _]. unfold depth_of. rewrite Hs. reflexivity. Qed.
+
+Lemma R_set_err old c c' x : R old c c' -> R old (set_err c x) (set_err c' x).
+Proof. intros (A & B & C & D & E & F & G). unR. exact (conj A (conj B (conj eq_refl (conj D (conj E (conj F G)))))). Qed.
+
+Lemma finish_R old s s' : Rs old s s' -> R old (s_finish s) (s_finish s').
+Proof.
+  intros [HR Hpend]. pose proof HR as (Hm & Hp & He & Hnx & Hba & _).
+  unfold s_finish, finish. rewrite <- He. destruct (c_err (s_core s)) eqn:E; [exact HR|]. rewrite <- Hm.
+  assert (Hfin : forall c1 c1', R old c1 c1' ->
+     R old match c_err c1 with Some _ => c1 | None => match stack (c_p c1) with [] => c1 | _ => set_err c1 (EPartial (depth_of (c_p c1))) end end
+           match c_err c1' with Some _ => c1' | None => match stack (c_p c1') with [] => c1' | _ => set_err c1' (EPartial (depth_of (c_p c1'))) end end).
+  { intros c1 c1' HR1. pose proof HR1 as (Hm1 & Hp1 & He1 & Hr1). rewrite <- He1. destruct (c_err c1); [exact HR1|].
+    pose proof Hp1 as [Hs1 _]. rewrite <- Hs1, <- (depth_R old _ _ Hp1). destruct (stack (c_p c1)); [exact HR1|]. apply R_set_err. exact HR1. }
+  destruct (c_mode (s_core s)) eqn:Em; try (apply Hfin; exact HR).
+  all: try (rewrite <- (Hpend ltac:(rewrite Em; discriminate)); apply Hfin; apply emit_R; [exact HR|]; intros Hk; try discriminate Hk; apply Hba; exact Em).
+  all: try (apply Hfin; rewrite <- (depth_R old _ _ Hp); apply R_set_err; exact HR).
+  all: try (apply Hfin; apply R_set_err; exact HR).
+Qed.
